@@ -781,6 +781,8 @@ X_KINDS = collections.OrderedDict([
     ('in-sub-1', (A.In(Y, _sub([Y])), None)),
     ('in-sub-2', (A.In(Y, _sub([Y, M])), None)),
     ('notin-sub-2', (A.NotIn(Y, _sub([Y, M])), None)),
+    ('in-sub-star', (A.In(Y, select(A.Asterisk(), from_='t')), None)),
+    ('notin-sub-star-where', (A.NotIn(Y, select(A.Asterisk(), from_='t', where=A.Greater(Y, C(0)))), None)),
     ('in-sub-bad', (A.In(Y, _sub([col('nope')])), None)),
     ('in-sub-unknown-table', (A.In(Y, _sub([Y], 'nope')), None)),
     ('in-list', (A.In(Y, C([2019, 2001, 1999])), None)),
